@@ -46,7 +46,8 @@ class C19:
         SELF = ("param", "self")
         tags = ("param", init.params[1])
         site = f"{self.file}:{init.node.lineno} SimpleEncoder.__init__"
-        stores = {e.term[1][2]: e.term[2] for e in init.of("store") if e.term[1][0] == "attr" and e.term[1][1] == SELF}
+        from sa.idioms import attribute_tables
+        stores = attribute_tables(init, SELF)
         table_attr = None
         key_build = None
         for attr, val in stores.items():
@@ -116,15 +117,9 @@ class C19:
         s = ctx.summ.of_func(ENC, "classification_encoding")
         site = f"{self.file}:{s.node.lineno} classification_encoding"
         tags, encoder = ("param", s.params[0]), ("param", s.params[1])
-        loops = [l for l in s.loops.values() if l.kind == "for"]
-        ok = False
-        if len(loops) == 1 and loops[0].iter == tags and not loops[0].conds:
-            e = ("elem", loops[0].id)
-            call = ("call", ("attr", encoder, "encode"), (e,), ())
-            inl = [r for r in s.returns if loops[0].id in r.loops]
-            out = [r for r in s.returns if not r.loops]
-            ok = (len(inl) == 1 and inl[0].term == call and [c for c in conjuncts(inl[0].live) if c[0] != "inloop"] == [("cmp", "isnot", call, NONE)]
-                  and len(out) == 1 and out[0].term == NONE)
+        from sa.idioms import first_not_none
+        fnn = first_not_none(s)
+        ok = fnn is not None and fnn[0] == tags and fnn[1] == ("call", ("attr", encoder, "encode"), (("elem", fnn[2]),), ())
         if ok:
             ctx.ok("R19.2", site, "returns the first non-None encoder.encode(tag) in input order, None on fall-through")
         else:
